@@ -1,4 +1,5 @@
 import PK.Properties.C04
+import PK.Properties.C04Table
 #print axioms PK.hashRanks_perm
 #print axioms PK.C04_perm_invariant
 #print axioms PK.C04_entry_perm
@@ -9,3 +10,9 @@ import PK.Properties.C04
 #print axioms PK.C04_eq_iff_index
 #print axioms PK.C04_trichotomy
 #print axioms PK.C04_unknown_rejected
+#print axioms PK.standard_table_ok
+#print axioms PK.TableCheck.tableOk_sound
+#print axioms PK.signature_mem
+#print axioms PK.C04_standard_table
+#print axioms PK.C04_standard_high
+#print axioms PK.C04_standard_low
